@@ -10,7 +10,7 @@ CONE = ['lemma:C20:bin1d_vec is an elementwise function of the points',
         'csep.core.regions.CartesianGrid2D.get_index_of',
         'csep.core.poisson_evaluations._w_test_ndarray',
         'lemma:C20:catalog number_test under a permutation of the synthetic catalogs']
-ORACLE_MODULES = ['rt.oracles_catfc', 'rt.oracles_eval', 'rt.oracles_contracts', 'rt.oracles_grid']
+ORACLE_MODULES = ['rt.oracles_catfc', 'rt.oracles_eval', 'rt.oracles_contracts', 'rt.oracles_grid', 'rt.oracles_io']
 BOUNDED = os.path.exists(os.path.join(os.path.dirname(__file__), '..', 'rt', 'bounded_C20.py'))
 FLOAT_MODEL = 'R (floats as reals): the relational lemmas compare two runs of the same real body, so rounding enters both runs identically'
 TRUSTED = ['numpy.add.at / fancy indexing / mask selection models', 'the oracles in rt/ compute the expected outcome from the property statement, independently of the code under test', 'pyvc engine, z3 5.1']
